@@ -167,3 +167,20 @@ Fixpoint run (c : cfg) (ops : list op) (s : st) : list out * st :=
   | o :: ops' => let '(x, s') := step c o s in
                  let '(xs, s'') := run c ops' s' in (x :: xs, s'')
   end.
+
+(* ---------- two requests in flight, their calls interleaved ----------
+   Each request has its own body stream and, after a probe, its own wrapper: nothing in request.go is shared
+   between requests. A call is tagged with the request it is made on (false: the first, true: the second);
+   a caller may hold on to r.Body of one request and use it after the other request has been probed. *)
+Definition op2 := (bool * op)%type.
+
+Fixpoint run2 (cA cB : cfg) (ops : list op2) (sA sB : st) : list out * (st * st) :=
+  match ops with
+  | [] => ([], (sA, sB))
+  | (false, o) :: ops' =>
+    let '(x, sA') := step cA o sA in
+    let '(xs, ss) := run2 cA cB ops' sA' sB in (x :: xs, ss)
+  | (true, o) :: ops' =>
+    let '(x, sB') := step cB o sB in
+    let '(xs, ss) := run2 cA cB ops' sA sB' in (x :: xs, ss)
+  end.
